@@ -15,7 +15,7 @@ import (
 
 const c19Slack = 2048 // bytes of growth per doubling tolerated (big.Int length jitter, amortised slice growth)
 
-var c19Patterns = []string{"ping-pong", "one-directional", "bursts", "forged-flood", "refresh", "smp", "errors", "garbage-flood", "one-way-delay", "error-refresh-idle", "forged-interleaved"}
+var c19Patterns = []string{"ping-pong", "one-directional", "bursts", "forged-flood", "refresh", "smp", "errors", "garbage-flood", "one-way-delay", "error-refresh-idle", "forged-interleaved", "forged-run"}
 
 func init() {
 	Register(&PropDef{
@@ -31,6 +31,13 @@ func c19Config(rc *RunCtx) {
 	r := rc.Rng
 	rc.Cfg["version"] = []int{2, 3, 3}[r.Intn(3)]
 	rc.Cfg["pattern"] = r.Intn(len(c19Patterns))
+	if v := os.Getenv("VERIF_C19_PATTERN"); v != "" { // debugging aid: force one traffic pattern
+		for i, n := range c19Patterns {
+			if n == v {
+				rc.Cfg["pattern"] = i
+			}
+		}
+	}
 	rc.Cfg["n"] = 512
 	if rc.Thorough() {
 		rc.Cfg["n"] = []int{512, 1024, 2048, 4096}[r.Intn(4)]
@@ -41,6 +48,10 @@ func c19Config(rc *RunCtx) {
 		f = 300
 	}
 	rc.Parties = []PartyCfg{{KeyIdx: 0, Pol: pol, Peer: 1, Frag: f, ErrHandler: r.Bool()}, {KeyIdx: 1, Pol: pol, Peer: 0, Frag: f, ErrHandler: r.Bool()}}
+	if c19Patterns[rc.Cfg["pattern"]%len(c19Patterns)] == "forged-run" {
+		// error replies exist only with an error message handler; a run of rejected messages is where they could pile up
+		rc.Parties[0].ErrHandler, rc.Parties[1].ErrHandler = true, true
+	}
 }
 
 func c19Run(rc *RunCtx) *Violation {
@@ -113,6 +124,7 @@ func c19Run(rc *RunCtx) *Violation {
 		total [2]int
 		byp   [2]map[string]int
 		msg   [2]int
+		pre   [2]int
 	}
 	var samples []sample
 	N := rc.Cfg["n"]
@@ -191,6 +203,13 @@ func c19Run(rc *RunCtx) *Violation {
 			if i%8 == 0 {
 				w.Drain(100000)
 			}
+		case "forged-run":
+			// nothing but rejected messages between two checkpoints: no successful call in between
+			if i == 1 {
+				send(a) // the forgeries are modelled on a genuine message
+				w.Drain(100000)
+			}
+			forged(1)
 		case "errors":
 			send(w.P[i%2])
 			w.Drain(100000)
@@ -203,8 +222,15 @@ func c19Run(rc *RunCtx) *Violation {
 			return rc.Viol("panic", "a call panicked during the long run", nil)
 		}
 		if i == next {
+			var pre [2]int
+			if pat == "forged-run" {
+				// what the flood itself left behind, before any successful call
+				for k := 0; k < 2; k++ {
+					pre[k] = WalkGraph(w.P[k].Conv).Total
+				}
+			}
 			quiesce()
-			s := sample{n: i, msg: maxMsg}
+			s := sample{n: i, msg: maxMsg, pre: pre}
 			for k := 0; k < 2; k++ {
 				g := WalkGraph(w.P[k].Conv)
 				s.total[k] = g.Total
@@ -221,10 +247,12 @@ func c19Run(rc *RunCtx) *Violation {
 	// verdict: growth above slack at every doubling (from the second sample on)
 	for k := 0; k < 2; k++ {
 		growAll, msgAll := len(samples) >= 4, len(samples) >= 4
-		series, mseries := "", ""
+		preAll := len(samples) >= 4 && pat == "forged-run"
+		series, mseries, pseries := "", "", ""
 		for i := range samples {
 			series += fmt.Sprintf(" n=%d:%d", samples[i].n, samples[i].total[k])
 			mseries += fmt.Sprintf(" n=%d:%d", samples[i].n, samples[i].msg[k])
+			pseries += fmt.Sprintf(" n=%d:%d", samples[i].n, samples[i].pre[k])
 			if i <= 1 {
 				// the first two segments (1..n/8 and n/8+1..n/4) are equally long; what accumulates
 				// within a segment shows from the third sample on
@@ -236,9 +264,16 @@ func c19Run(rc *RunCtx) *Violation {
 			if samples[i].msg[k]-samples[i-1].msg[k] <= 64 {
 				msgAll = false
 			}
+			if samples[i].pre[k]-samples[i-1].pre[k] <= c19Slack {
+				preAll = false
+			}
+		}
+		if preAll {
+			return rc.Viol("state.growth", fmt.Sprintf("%s: bytes reachable from the conversation right after a run of rejected messages grow with the length of the run:%s", w.P[k].Name, pseries),
+				map[string]string{"where": "after-flood", "pattern": pat})
 		}
 		if os.Getenv("VERIF_VERBOSE") != "" {
-			fmt.Printf("C19DBG %s %s size:%s | msg:%s\n", pat, w.P[k].Name, series, mseries)
+			fmt.Printf("C19DBG %s %s size:%s | msg:%s | pre:%s\n", pat, w.P[k].Name, series, mseries, pseries)
 		}
 		if growAll {
 			// which part of the conversation grows
